@@ -1438,6 +1438,32 @@ static void write_buf(char *buf, uint64_t val, int sz) {
     unreachable();
 }
 
+// True while the initializer of an object with static storage duration
+// is being parsed.
+static bool in_gvar_initializer;
+
+// A struct initialized by an expression of its own type, e.g.
+// `static struct T x = (struct T){1, 2};`. The value is known at
+// compile time only if the expression is an object whose own initial
+// image has already been computed (a file-scope compound literal);
+// that image and its relocations are copied.
+static Relocation *
+copy_gvar_data(Relocation *cur, Node *expr, Type *ty, char *buf, int offset) {
+  if (expr->kind != ND_VAR || expr->var->is_local || !expr->var->init_data)
+    error_tok(expr->tok, "initializer element is not constant");
+
+  memcpy(buf + offset, expr->var->init_data, ty->size);
+
+  for (Relocation *rel = expr->var->rel; rel; rel = rel->next) {
+    Relocation *rel2 = calloc(1, sizeof(Relocation));
+    rel2->offset = rel->offset + offset;
+    rel2->label = rel->label;
+    rel2->addend = rel->addend;
+    cur = cur->next = rel2;
+  }
+  return cur;
+}
+
 static Relocation *
 write_gvar_data(Relocation *cur, Initializer *init, Type *ty, char *buf, int offset) {
   if (ty->kind == TY_ARRAY) {
@@ -1446,6 +1472,9 @@ write_gvar_data(Relocation *cur, Initializer *init, Type *ty, char *buf, int off
       cur = write_gvar_data(cur, init->children[i], ty->base, buf, offset + sz * i);
     return cur;
   }
+
+  if (ty->kind == TY_STRUCT && init->expr)
+    return copy_gvar_data(cur, init->expr, ty, buf, offset);
 
   if (ty->kind == TY_STRUCT) {
     for (Member *mem = ty->members; mem; mem = mem->next) {
@@ -1516,7 +1545,10 @@ write_gvar_data(Relocation *cur, Initializer *init, Type *ty, char *buf, int off
 // objects to a flat byte array. It is a compile error if an
 // initializer list contains a non-constant expression.
 static void gvar_initializer(Token **rest, Token *tok, Obj *var) {
+  bool outer = in_gvar_initializer;
+  in_gvar_initializer = true;
   Initializer *init = initializer(rest, tok, var->ty, &var->ty);
+  in_gvar_initializer = outer;
 
   Relocation head = {};
   char *buf = calloc(1, var->ty->size);
@@ -2934,7 +2966,9 @@ static Node *postfix(Token **rest, Token *tok) {
     Type *ty = typename(&tok, tok->next);
     tok = skip(tok, ")");
 
-    if (scope->next == NULL) {
+    // A compound literal at file scope, or in the initializer of an
+    // object with static storage duration, is itself a static object.
+    if (scope->next == NULL || in_gvar_initializer) {
       Obj *var = new_anon_gvar(ty);
       gvar_initializer(rest, tok, var);
       return new_var_node(var, start);
